@@ -450,31 +450,7 @@ func ruleGraphSeesAllDependencies(w *World, r *Report, rule string) {
 // linked to the group's members before every cycle search and sort.
 func ruleGroupLinkGraph(w *World, r *Report, rule string) {
 	gr := resolveGraph(w)
-	// the linking function: writes edges inside a range over nodes and is not an adder
-	var link *FuncInfo
-	for _, fi := range w.FuncsOf(w.Graph) {
-		if fi.Obj.Exported() || fi == gr.updateDegrees {
-			continue
-		}
-		info := fi.Pkg.TypesInfo
-		writesEdges, readsGroup := false, false
-		ast.Inspect(fi.Decl.Body, func(x ast.Node) bool {
-			if as, ok := x.(*ast.AssignStmt); ok {
-				for _, l := range as.Lhs {
-					if ix, ok := unparen(l).(*ast.IndexExpr); ok && fieldOf(info, ix.X) == gr.edges {
-						writesEdges = true
-					}
-				}
-			}
-			if sel, ok := x.(*ast.SelectorExpr); ok && sel.Sel.Name == "Group" {
-				readsGroup = true
-			}
-			return true
-		})
-		if writesEdges && readsGroup {
-			link = fi
-		}
-	}
+	link := groupLinker(w)
 	if link == nil {
 		r.Fail(rule, "graph#group-linking", token.NoPos, "the graph has no step that connects a group dependency's placeholder node to the members of the group: cycles through a group are invisible and consumers are not ordered after members")
 		return
@@ -784,7 +760,7 @@ func checkC07(w *World, r *Report) {
 		inspectNoLit(lc.depLoop.Body, func(m ast.Node) bool {
 			switch s := m.(type) {
 			case *ast.ReturnStmt:
-				if len(s.Results) != 1 || litOf(s.Results[0]) == nil {
+				if len(s.Results) != 1 || literalResult(w, info, lc.body, s.Results[0]) == nil {
 					bad = "the loop over the dependencies is left by `return " + exprStrs(s.Results) + "`, which can be nil: the dependencies after this one are never checked"
 				}
 			case *ast.BranchStmt:
@@ -920,9 +896,8 @@ func checkC07(w *World, r *Report) {
 			if !ok || fieldOf(info, ix.X) != rg.groups {
 				return true
 			}
-			if cl, ok := unparen(ix.Index).(*ast.CompositeLit); ok {
-				f := compositeFields(cl)
-				if objOf(info, selBase(f["Type"])) == lc.depObj && objOf(info, selBase(f["Group"])) == lc.depObj && isFieldNamed(info, f["Type"], "Type") && isFieldNamed(info, f["Group"], "Group") {
+			if kc := keyConsOf(w, info, ix.Index); kc != nil {
+				if kc.f["Type"].base == lc.depObj && kc.f["Group"].base == lc.depObj && kc.f["Type"].sel == "Type" && kc.f["Group"].sel == "Group" {
 					good = true
 				}
 			}
@@ -931,17 +906,12 @@ func checkC07(w *World, r *Report) {
 		r.Check(good, "R07.4", fi.Name()+"#group-members", lc.depLoop.Pos(), true, "a group dependency is checked against every member found under GroupKey{dep.Type, dep.Group}", why)
 		// plain lookup: key literal with Type and Key of dep
 		plain := false
-		ast.Inspect(lc.depLoop.Body, func(x ast.Node) bool {
-			if cl, ok := x.(*ast.CompositeLit); ok {
-				if tv, ok := info.Types[cl]; ok && (isNamedType(tv.Type, modPath, "instanceKey") || isNamedType(tv.Type, modPath, "TypeKey")) {
-					f := compositeFields(cl)
-					if objOf(info, selBase(f["Type"])) == lc.depObj && objOf(info, selBase(f["Key"])) == lc.depObj {
-						plain = true
-					}
-				}
+		for _, kc := range keyConsIn(w, info, lc.depLoop.Body) {
+			if (kc.typ == "instanceKey" || kc.typ == "TypeKey") && kc.f["Type"].base == lc.depObj && kc.f["Key"].base == lc.depObj &&
+				kc.f["Type"].sel == "Type" && kc.f["Key"].sel == "Key" {
+				plain = true
 			}
-			return true
-		})
+		}
 		r.Check(plain, "R07.4", fi.Name()+"#plain-lookup", lc.depLoop.Pos(), false, "plain and keyed dependencies are looked up by (dep.Type, dep.Key)", "the dependency's lifetime is not looked up by (dep.Type, dep.Key): keyed dependencies are checked against the wrong registration")
 	}
 	// ---- R07.5
@@ -954,7 +924,7 @@ func checkC07(w *World, r *Report) {
 			if ex.Ret == nil || len(ex.Ret.Results) != 1 {
 				continue
 			}
-			l := litOf(ex.Ret.Results[0])
+			l := literalResult(w, info, lc.body, ex.Ret.Results[0])
 			if l == nil {
 				continue
 			}
@@ -1130,9 +1100,8 @@ func checkC08(w *World, r *Report) {
 				if ix, ok := unparen(as.Rhs[0]).(*ast.IndexExpr); ok {
 					okName := exprStr(as.Lhs[1])
 					if fieldOf(info, ix.X) == rg.services {
-						if cl, ok := unparen(ix.Index).(*ast.CompositeLit); ok {
-							f := compositeFields(cl)
-							if objOf(info, selBase(f["Type"])) == dep && objOf(info, selBase(f["Key"])) == dep {
+						if kc := keyConsOf(w, info, ix.Index); kc != nil {
+							if kc.f["Type"].base == dep && kc.f["Key"].base == dep && kc.f["Type"].sel == "Type" && kc.f["Key"].sel == "Key" {
 								gen = append(gen, "lookup-var:"+okName)
 							}
 						}
@@ -1409,4 +1378,71 @@ func isCycleSearch(w *World, fi *FuncInfo) bool {
 		return false
 	}
 	return hasLiteralOf(w, fi, modPath+"/internal/graph", "CircularDependencyError", 0)
+}
+
+// literalResult: the composite literal that e evaluates to - e itself, or the
+// single `return <literal>` of a locally bound function literal / private helper
+// that e calls (conflict(dep, lt) building the error). nil if e is anything else.
+func literalResult(w *World, info *types.Info, scope ast.Node, e ast.Expr) *ast.CompositeLit {
+	if l := litOf(e); l != nil {
+		return l
+	}
+	c, ok := unparen(e).(*ast.CallExpr)
+	if !ok {
+		return nil
+	}
+	var body *ast.BlockStmt
+	if id, ok := unparen(c.Fun).(*ast.Ident); ok && scope != nil {
+		if bs, ok := scope.(*ast.BlockStmt); ok {
+			if lit := litBindings(info, bs)[info.Uses[id]]; lit != nil {
+				body = lit.Body
+			}
+		}
+	}
+	if body == nil {
+		if cal := callee(info, c); cal != nil && !cal.Exported() {
+			if t := w.Decls[cal]; t != nil {
+				body = t.Decl.Body
+			}
+		}
+	}
+	if body == nil || len(body.List) != 1 {
+		return nil
+	}
+	ret, ok := body.List[0].(*ast.ReturnStmt)
+	if !ok || len(ret.Results) != 1 {
+		return nil
+	}
+	return litOf(ret.Results[0])
+}
+
+// groupLinker: the unexported graph function that writes edges and reads .Group
+// (connects group placeholders to the members of the group).
+func groupLinker(w *World) *FuncInfo {
+	gr := resolveGraph(w)
+	var link *FuncInfo
+	for _, fi := range w.FuncsOf(w.Graph) {
+		if fi.Obj.Exported() || fi == gr.updateDegrees {
+			continue
+		}
+		info := fi.Pkg.TypesInfo
+		writesEdges, readsGroup := false, false
+		ast.Inspect(fi.Decl.Body, func(x ast.Node) bool {
+			if as, ok := x.(*ast.AssignStmt); ok {
+				for _, l := range as.Lhs {
+					if ix, ok := unparen(l).(*ast.IndexExpr); ok && fieldOf(info, ix.X) == gr.edges {
+						writesEdges = true
+					}
+				}
+			}
+			if sel, ok := x.(*ast.SelectorExpr); ok && sel.Sel.Name == "Group" {
+				readsGroup = true
+			}
+			return true
+		})
+		if writesEdges && readsGroup {
+			link = fi
+		}
+	}
+	return link
 }
